@@ -20,10 +20,29 @@ git apply -R $DEST/patch.diff
 git checkout -q -- . && git clean -fdq
 echo "build=$BUILD suite=$SUITE demo_with_patch=$DEMO_WITH (want !=0) demo_without=$DEMO_WITHOUT (want 0)"
 cd /verif
-git -C /repo apply $DEST/patch.diff || { echo "PATCH DOES NOT APPLY TO /repo"; exit 3; }
-./check.py $PROP --tier quick > $DEST/check_quick.log 2>&1; CHECK=$?
-git -C /repo checkout -- .
-git -C /repo status --short | head -3
+# run the registered quick check against the change. Other agents build their harnesses from /repo
+# while this runs, so the change is applied to a scratch worktree and the check is pointed at it
+# (VERIF_REPO); with SEED_IN_PLACE=1 it is applied to /repo itself and undone straight afterwards.
+if [ "${SEED_IN_PLACE:-0}" = "1" ]; then
+  git -C /repo apply $DEST/patch.diff || { echo "PATCH DOES NOT APPLY TO /repo"; exit 3; }
+  ./check.py $PROP --tier quick > $DEST/check_quick.log 2>&1; CHECK=$?
+  git -C /repo checkout -- .
+  git -C /repo status --short | head -3
+else
+  RUN=/tmp/seedrun_$PROP
+  git -C /repo worktree remove --force $RUN 2>/dev/null
+  git -C /repo worktree add -q --detach $RUN HEAD && git -C $RUN apply $DEST/patch.diff || { echo "PATCH DOES NOT APPLY"; exit 3; }
+  VERIF_REPO=$RUN ./check.py $PROP --tier quick > $DEST/check_quick.log 2>&1; CHECK=$?
+  git -C /repo worktree remove --force $RUN
+  # restore tables regenerated from the scratch copy
+  python3 -c "
+import sys; sys.path.insert(0,'/verif')
+import importlib
+from vlib import core
+m=importlib.import_module('checks.$PROP'.lower())
+if hasattr(m,'regen'):
+    c=core.Ctx('$PROP','quick',0); m.regen(c); c.cleanup()"
+fi
 grep -E "VIOLATION|KNOWN-FINDING|obligation no longer|coq evaluated|outcomes" $DEST/check_quick.log | cut -c1-220
 echo "check_exit=$CHECK"
 python3 - <<PY
